@@ -22,8 +22,8 @@ def parse_tla(s):
 
 def run(ctx):
     th = ctx.thorough()
-    if not th:
-        os.environ["JAVA_TOOL_OPTIONS"] = (os.environ.get("JAVA_TOOL_OPTIONS", "") + " -XX:TieredStopAtLevel=1 -XX:ParallelGCThreads=2").strip()
+    os.environ["JAVA_TOOL_OPTIONS"] = (os.environ.get("JAVA_TOOL_OPTIONS", "") + (" -XX:ParallelGCThreads=4" if th else
+                                                                                  " -XX:TieredStopAtLevel=1 -XX:ParallelGCThreads=2")).strip()
     jobs = {}
     ex = cf.ThreadPoolExecutor(max_workers=8)
     vcfg = "vec5" if th else "vec3"
